@@ -585,7 +585,8 @@ Definition query_body (qi : nat) (q : query) (cur : pv) (cv : option N) : M (lis
               | S pi =>
                   match nth_error q pi with
                   | Some (QAllValues _) | Some (QAllIndices _) =>
-                      check_and_delegate cnf None (S qi) q cur cur cv
+                      (* fix in /repo: ValueScope{root: current}; before it `list[*][ filter ]` tested the enclosing scope's value *)
+                      with_frame (FValue cur) (check_and_delegate cnf None (S qi) q cur cur cv)
                   | Some (QKey _) =>
                       match vals with
                       | [] => ret []
